@@ -94,6 +94,36 @@ static char *read_file (const char *fn)
   return b;
 }
 
+/* LL: inline literal operands (the parser's own constant pool, not named constants): the same literal used by two
+ * instructions of different width, in both orders, for values whose 8/16/32-bit pattern differs from their 64-bit
+ * value; literals wider than 32 bits that share a long prefix; float and double spellings */
+static void emit_LL (void)
+{
+  static const char *addn[] = { "", "addb", "addw", "", "addl", "", "", "", "addq" };
+  static const char *lits[] = { "-3", "200", "0xffffffff", "0x80000000", "-2147483648", "65535", "-32768" };
+  static char text[1 << 16];
+  size_t o = 0;
+  int a, b, l, k = 0, i, n;
+  OrcProgram **progs = NULL;
+  for (a = 1; a <= 8; a *= 2) for (b = 1; b <= 8; b *= 2) for (l = 0; l < 7; l++) {
+    if (a == b) continue;
+    /* a literal must fit the narrower instruction to be a meaningful operand there */
+    if ((a == 1 || b == 1) && l != 0 && l != 1) continue;
+    if ((a == 2 || b == 2) && (l == 2 || l == 3 || l == 4)) continue;
+    o += snprintf (text + o, sizeof (text) - o, ".function vLL_%d\n.dest %d d1\n.source %d s1\n.dest %d d2\n.source %d s2\n%s d1, s1, %s\n%s d2, s2, %s\n\n",
+        k++, a, a, b, b, addn[a], lits[l], addn[b], lits[l]);
+  }
+  {
+    static const char *pairs[][2] = { { "0x0000ffffffff0000L", "0x0000ffffffff8000L" }, { "1000000000001L", "1000000000002L" }, { "0x7fffffffffffffffL", "0x7ffffffffffffffeL" } };
+    for (i = 0; i < 3; i++)
+      o += snprintf (text + o, sizeof (text) - o, ".function vLL_%d\n.dest 8 d1\n.source 8 s1\n.dest 8 d2\n.source 8 s2\nandq d1, s1, %s\nxorq d2, s2, %s\n\n", k++, pairs[i][0], pairs[i][1]);
+  }
+  fputs (text, f_orc);
+  n = orc_parse (text, &progs);
+  for (i = 0; i < n; i++) emit_thunk (progs[i]);
+  g_idx += n;
+}
+
 int main (int argc, char **argv)
 {
   const char *out = v_arg (argc, argv, "--out", "xc");
@@ -130,6 +160,7 @@ int main (int argc, char **argv)
     if (strstr (levels, "L3")) pgen_L3 (on_prog, NULL, PG_INT);
     if (strstr (levels, "L5")) pgen_L5 (on_prog, NULL);
     if (strstr (levels, "LB")) pgen_LB (on_prog, NULL);
+    if (strstr (levels, "LL") && shard == 0) emit_LL ();
   }
   fprintf (f_calls, "const VCallEntry v_calls[] = {\n");
   for (i = 0; i < nnames; i++) fprintf (f_calls, "  { \"%s\", call_%s },\n", names[i], names[i]);
